@@ -278,6 +278,15 @@ class Sym:
     def frame_id(self, st):
         return st.frames[-1][0]
 
+    def frame_chain(self, st):
+        """frame ids in which a local of the current body may be bound: the current frame, and for a closure body the frames of
+        the function it is written in (closure bodies share their parent's local ids)"""
+        f = st.frames[-1]
+        out = [f[0]]
+        if len(f) > 2:
+            out.extend(x[0] for x in reversed(f[2]))
+        return out
+
     def budget(self, n=1):
         self.count += n
         if self.count > 400000:
@@ -406,6 +415,113 @@ class Sym:
                 return r
         return ("apply", f, v)
 
+    def inline_closure(self, f, args, st):
+        """evaluate a closure's body on the current path (effects included) -> list of (state, term)"""
+        node, _env, cap_frames = self.closures[f[1]]
+        self.uid += 1
+        fid = self.uid
+        saved = st.frames
+        st.frames = st.frames + ((fid, {"output": None, "path": "<closure>", "body": node["body"]}, tuple(cap_frames)),)
+        states = [st]
+        for p, a in zip(node.get("params", []), args):
+            nxt = []
+            for s1 in states:
+                for s2, ok in self.pm(p, a, s1):
+                    if ok:
+                        nxt.append(s2)
+            states = nxt
+        out = []
+        for s1 in states:
+            for s2, t in self.ev(node["body"], s1):
+                if s2.done == ("ret", fid):
+                    s2.done = None
+                    t = s2.result
+                    s2.result = None
+                    s2.ret_loop_depth = 0
+                    s2.via_try = None
+                s2.frames = tuple(x for x in s2.frames if x[0] != fid)
+                out.append((s2, t))
+        return out
+
+    def expand_combinator(self, c, n, args, st):
+        """Result/Option/bool combinators that take a closure: split on the receiver and run the closure's body on the path"""
+        if not c or len(args) < 2:
+            return None
+        name = c.split("::")[-1]
+        is_res, is_opt, is_bool = c.startswith(R), c.startswith(O), c.startswith("core::bool::<impl bool>::")
+        if not (is_res or is_opt or is_bool):
+            return None
+        clos = [a for a in args[1:] if a[0] == "closure" and a[1] in self.closures]
+        if not clos or self.applying > 6:
+            return None
+        if name not in ("and_then", "map", "map_err", "or_else", "unwrap_or_else", "map_or", "map_or_else", "ok_or_else", "filter", "inspect", "inspect_err", "then", "is_some_and", "is_ok_and"):
+            return None
+        recv = args[0]
+        self.applying += 1
+        try:
+            out = []
+            if is_bool:
+                if name != "then":
+                    return None
+                for s1, b in self.truth(recv, st):
+                    if b:
+                        out.extend((s2, None if s2.done is not None else ("ctor", SOME, (t,))) for s2, t in self.inline_closure(args[1], [], s1))
+                    else:
+                        out.append((s1, ("ctor", NONE, ())))
+                return out
+            good, bad = (OK, ERR) if is_res else (SOME, NONE)
+            for s1, isgood in self.test_variant(recv, good, st):
+                v = self.proj(recv, good, 0)
+                e = self.proj(recv, ERR, 0) if is_res else None
+                eargs = [e] if is_res else []
+                same = ("ctor", good, (v,)) if isgood else (("ctor", ERR, (e,)) if is_res else ("ctor", NONE, ()))
+
+                def run(f, a, wrap=None, s=s1):
+                    if f[0] == "closure" and f[1] in self.closures:
+                        return [(s2, None if s2.done is not None else (wrap(t) if wrap else t)) for s2, t in self.inline_closure(f, a, s)]
+                    t = self.apply(f, a[0], self.site(n, s)) if a else ("call", "<fn>", (f,), self.site(n, s))
+                    return [(s, wrap(t) if wrap else t)]
+
+                if name == "and_then":
+                    out.extend(run(args[1], [v]) if isgood else [(s1, same)])
+                elif name == "map":
+                    out.extend(run(args[1], [v], lambda t: ("ctor", good, (t,))) if isgood else [(s1, same)])
+                elif name == "map_err" and is_res:
+                    out.extend([(s1, same)] if isgood else run(args[1], [e], lambda t: ("ctor", ERR, (t,))))
+                elif name == "or_else":
+                    out.extend([(s1, same)] if isgood else run(args[1], eargs))
+                elif name == "unwrap_or_else":
+                    out.extend([(s1, v)] if isgood else run(args[1], eargs))
+                elif name == "map_or" and len(args) == 3:
+                    out.extend(run(args[2], [v]) if isgood else [(s1, args[1])])
+                elif name == "map_or_else" and len(args) == 3:
+                    out.extend(run(args[2], [v]) if isgood else run(args[1], eargs))
+                elif name == "ok_or_else" and is_opt:
+                    out.extend([(s1, ("ctor", OK, (v,)))] if isgood else run(args[1], [], lambda t: ("ctor", ERR, (t,))))
+                elif name == "filter" and is_opt:
+                    if not isgood:
+                        out.append((s1, same))
+                    else:
+                        for s2, t in run(args[1], [v]):
+                            if s2.done is not None:
+                                out.append((s2, None))
+                                continue
+                            for s3, b in self.truth(t, s2):
+                                out.append((s3, same if b else ("ctor", NONE, ())))
+                elif name in ("inspect", "inspect_err"):
+                    hit = isgood if name == "inspect" else (not isgood)
+                    if hit:
+                        out.extend((s2, None if s2.done is not None else same) for s2, _t in run(args[1], [v] if isgood else eargs))
+                    else:
+                        out.append((s1, same))
+                elif name in ("is_some_and", "is_ok_and"):
+                    out.extend(run(args[1], [v]) if isgood else [(s1, ("lit", False))])
+                else:
+                    return None
+            return out
+        finally:
+            self.applying -= 1
+
     def apply_closure(self, f, args):
         """value of a closure applied to terms, when its body is a single effect-free path (else None)"""
         node, env, frames = self.closures[f[1]]
@@ -509,8 +625,11 @@ class Sym:
         r = n["res"]
         rk = r.get("rk", "")
         if rk == "Local":
-            key = (self.frame_id(st), r["id"])
-            t = st.env.get(key)
+            t = None
+            for fid in self.frame_chain(st):
+                t = st.env.get((fid, r["id"]))
+                if t is not None:
+                    break
             if t is None:
                 t = ("local", self.frame_id(st), r["id"], r.get("name"))
             return [(st, t)]
@@ -1027,6 +1146,10 @@ class Sym:
             simp = self.combinator(c, args, site) if c else None
             if simp is not None:
                 return [(st, simp)]
+        for c in (trait_callee, callee):
+            ex = self.expand_combinator(c, n, args, st)
+            if ex is not None:
+                return ex
         for c in (trait_callee, callee):
             if c in UNWRAPS and args:
                 good = UNWRAPS[c]
